@@ -3,7 +3,7 @@
    Model: Model/InvCDF.v (dist.go:116-178, 197-209; alg.go:80-102).  F is ANY function Q -> Q
    (hypotheses are stated where they are needed); pwf is the executable family of piecewise
    cdfs (ramps, jumps, flat stretches) the correspondence check runs against the Go code. *)
-From MM Require Import Base.Num Model.InvCDF Proofs.InvCDF.
+From MM Require Import Base.Num Model.Choose Model.Binom Model.Hyperg Model.InvCDF Proofs.InvCDF.
 Local Open Scope Q_scope.
 
 (* ----- bracket expansion by doubling from 0 (dist.go:146-167) -----
@@ -120,6 +120,22 @@ Print Assumptions C07_invcdf_generic_pw_total.
 Theorem C07_pw_wfb_sound : forall pw, pw_wfb pw = true -> pw_wf pw.
 Proof. exact pw_wfb_sound. Qed.
 Print Assumptions C07_pw_wfb_sound.
+
+(* ----- built-in discrete distributions: the expected value of the check is the FIRST support point
+   of the exact cdf table (Model/Binom.v, Model/Hyperg.v) with cdf >= y: all earlier ones are below y ----- *)
+Theorem C07_disc_quantile_spec : forall tab t dflt,
+  (exists pre c post, tab = pre ++ (disc_quantile tab t dflt, c) :: post /\ t <= c /\
+                      forall k' c', In (k', c') pre -> c' < t)
+  \/ ((forall k' c', In (k', c') tab -> c' < t) /\ disc_quantile tab t dflt = last (map fst tab) dflt).
+Proof. exact disc_quantile_spec. Qed.
+Print Assumptions C07_disc_quantile_spec.
+
+Example C07_disc_example :
+  let tab := disc_table (binom_cdf_i 10 (1 # 2)) 0 11 in
+  map (fun y => disc_quantile tab y 10) [1 # 1024; 2 # 1024; 1 # 2; 638 # 1024; 639 # 1024; 1023 # 1024; 1]
+    = [0; 1; 5; 5; 6; 9; 10]%Z /\
+  disc_quantile (disc_table (hg_cdf_i 10 4 3) (hg_lo 10 4 3) 4) (1 # 2) (hg_hi 10 4 3) = 1%Z.
+Proof. vm_compute. repeat split; reflexivity. Qed.
 
 (* ----- Rand (dist.go:197-209): the inverse at the FIRST NON-ZERO value of the source,
    consuming exactly the leading zeros and that value; a source of zeros only yields nothing ----- *)
